@@ -159,7 +159,11 @@ func parseHeader(rest string) (string, []string) {
 }
 
 func (cs *ContractSet) parseFile(path, pkg string, prefix string, trusted bool) error {
-	f, err := os.Open(path)
+	src := path
+	if o, ok := overlayFiles[path]; ok { // must-fail corpus: a contract file can be overlaid like a source file
+		src = o
+	}
+	f, err := os.Open(src)
 	if err != nil {
 		return err
 	}
